@@ -10,7 +10,7 @@ STARK_NATIVE = [
          ctx={'uncond': True, 'noloop': True}, why='number of public inputs matches the STARK'),
     dict(id='stark.shape', fn='starky::verifier::verify_stark_proof_with_challenges', crate='starky', kind='try', callee='validate_proof_shape',
          src=['p:stark', 'p:proof', 'p:public_inputs', 'p:config'], ctx={'uncond': True, 'noloop': True}, why='shape validated and error propagated'),
-    dict(id='stark.consumer', fn='starky::verifier::verify_stark_proof_with_challenges', crate='starky', kind='call', callee='new',
+    dict(id='stark.consumer', fn='starky::verifier::verify_stark_proof_with_challenges', crate='starky', kind='call', callee='ConstraintConsumer::new',
          src=['F:StarkProofChallenges.stark_alphas', 'F:StarkProofChallenges.stark_zeta', 'c:eval_l_0_and_l_last', 'c:primitive_root_of_unity', 'c:recover_degree_bits'],
          why='consumer built from alphas, zeta - g^-1, L_0(zeta), L_last(zeta)'),
     dict(id='stark.vanishing', fn='starky::verifier::verify_stark_proof_with_challenges', crate='starky', kind='call', callee='eval_vanishing_poly',
